@@ -21,7 +21,13 @@ type VerifPullFn func(ctx context.Context, ref string) (*packagetypes.RawPackage
 // NewVerifRequestManager builds a RequestManager through the real constructor and
 // replaces its pull function by the scripted one. Nothing else is changed.
 func NewVerifRequestManager(pull VerifPullFn) *RequestManager {
-	rm := NewRequestManager(nil, nil, nil, types.NamespacedName{})
+	return NewVerifRequestManagerWithOverrides(nil, pull)
+}
+
+// NewVerifRequestManagerWithOverrides is NewVerifRequestManager with registry host overrides
+// (first argument of the real constructor).
+func NewVerifRequestManagerWithOverrides(registryHostOverrides map[string]string, pull VerifPullFn) *RequestManager {
+	rm := NewRequestManager(registryHostOverrides, nil, nil, types.NamespacedName{})
 	rm.pullImage = func(
 		ctx context.Context, _ client.Client, _ types.NamespacedName, ref string, _ ...crane.Option,
 	) (*packagetypes.RawPackage, error) {
